@@ -490,6 +490,26 @@ func run(ci any, r *mon.Rec) {
 			}
 			keep = append(keep, kept{out.Resp, rep})
 		}
+		if slow && c.Client == clientx.Serial {
+			// a serial line so slow that writing the request takes longer (200 ms) than the read timeout (150 ms): the read
+			// timeout bounds the wait for the reply, which is there, complete, at the first read
+			sw := clientx.NewSession(c.Client, clientx.Options{ReadTimeout: 150 * time.Millisecond})
+			rq, _, rep, err := Build(rng, c.Client, c.FC, 0, false)
+			if err == nil && rq.ExpectedResponseLength() == len(rep) {
+				out := sw.Do(rq, xport.Script{Reply: rep, Steps: xport.Cuts(len(rep), nil, 0), Tail: "deadline", WriteSleepMs: 200})
+				r.Eval(1)
+				r.Cover("session", "write-slower-than-read-timeout")
+				if out.Hung || out.Panic != "" || out.Err != nil || libx.IsNilValue(out.Resp) {
+					reads := 0
+					for _, e := range out.Events {
+						if e.Op == "read" {
+							reads++
+						}
+					}
+					r.Violate(c, "session-call-fails", mon.Attrs{"client": clientx.KindName(c.Client), "fc": int(c.FC), "idle_gap": false, "slow_device": false, "slow_write": true}, fmt.Sprintf("the port took 200 ms to take the request (read timeout 150 ms), the complete reply was readable at once: err=%v panic=%q hung=%v after %d transport reads, %d of %d reply bytes handed over", out.Err, out.Panic, out.Hung, reads, out.Conn.Delivered(), len(rep)))
+				}
+			}
+		}
 		for i, k := range keep {
 			if b := k.resp.Bytes(); !bytes.Equal(b, k.want) {
 				r.Violate(c, "earlier-response-changed-by-later-call", mon.Attrs{"client": clientx.KindName(c.Client), "fc": int(c.FC)}, fmt.Sprintf("response %d of %d on one client re-encodes to % x after the later calls, it was % x", i, len(keep), head(b), head(k.want)))
